@@ -68,9 +68,9 @@ for k, v in ADD.items():
 ADD8 = {
  "C02": " data-* names are judged by HTML's definition of a custom data attribute (XML NameChar ranges, no colon, no upper case, valid UTF-8), not by the code's; a builder call OnElements() with no element is in the rare-forms policy.",
  "C03": " A surviving http / https / ftp / ws / wss URL must have // and a host (without them a browser reads it as absolute or as page-relative depending on the page, so nothing has judged what it will use); a deny-list custom check is in the family.",
- "C05": " Second oracle: an independent transcription of the HTML standard's script-data states (escaped / double-escaped) delimits the script element when it is the document's first tag; script bodies <=4 (thorough 6) over 14 fragments that move between those states. Third known finding: x/net's tokenizer leaves the escaped state too early.",
- "C07": " A policy whose pattern-bound enum / handler style rules accept values no default handler accepts is in the family.",
- "C10": " The browser-model splitter knows unquoted url tokens (a bad url ends at the first ')'); case folding in the oracle is ASCII-only; an accept-all handler and matchers for words with k / s are in the family; every sequence <=2 of clean declarations is also written with CSS white space before it and after its final ';' (a style attribute on several lines).",
+ "C05": " Second oracle: an independent transcription of the HTML standard's script-data states (escaped / double-escaped) delimits the script element when it is the document's first tag; script bodies <=4 (thorough 6) over 14 fragments that move between those states. Third known finding: x/net's tokenizer leaves the escaped state too early. Third oracle: the input parsed with scripting disabled (noscript content is markup then); fourth known finding: script/style text inside a kept noscript comes out escaped.",
+ "C07": " A policy whose pattern-bound enum / handler style rules accept values no default handler accepts and one whose rules are registered under vendor-prefixed names are in the family; conforming declarations are also written with !important.",
+ "C10": " The browser-model splitter knows unquoted url tokens (a bad url ends at the first ')'); case folding in the oracle is ASCII-only; an accept-all handler and matchers for words with k / s are in the family; every sequence <=2 of clean declarations is also written with CSS white space before it and after its final ';' (a style attribute on several lines); the splitter also knows CDO, hash tokens and at-keywords before a parenthesis; clean declarations with !important are in the alphabet (the oracle takes the flag off before judging the value).",
  "C11": " target values are compared with _blank ASCII case-insensitively, as a browser does (target=_BLANK is in the alphabet, as is href=https:/e.x/p).",
  "C12": " A zero-value Policy{} with both forcing options set before the first initialising call is in the family.",
  "C14": " The streaming entry point is driven into a bytes.Buffer and into a destination without WriteString.",
